@@ -29,6 +29,7 @@ class Clock(i_lib.Clock):
         # stop() would end the first delay early, while a stop() issued now
         # must not be overwritten when the thread finally starts.
         self._keep_going = True
+        self._event.clear()
         threading.Thread(target=self.run, args=(), daemon=True).start()
 
     @injection.inject(i_lib.Settings)
@@ -41,6 +42,9 @@ class Clock(i_lib.Clock):
 
     def stop(self):
         self._keep_going = False
+        # Release a thread that is waiting for the next tick, which may never
+        # come now.
+        self._event.set()
 
     def reset(self):
         self._cue_time = 0.0
@@ -55,7 +59,9 @@ class Clock(i_lib.Clock):
 
     def wait(self):
         if self._keep_going:
-            self._event.wait()
+            # The timeout bounds the wait if stop() is called between the test
+            # above and the call below, and the last tick then clears the event.
+            self._event.wait(1.0)
         return self._keep_going
 
     def pause_for(self, delay):
@@ -67,7 +73,9 @@ class Clock(i_lib.Clock):
     def wait_until(self, time_pattern):
         hour, minute = Clock._hour_minute()
         while not time_pattern.match(hour, minute):
-            self.wait()
+            if not self.wait():
+                # The clock has been stopped; give up waiting.
+                return
             hour, minute = Clock._hour_minute()
         self.reset()
 
